@@ -7,6 +7,7 @@ import PyttbModel.Lemmas.Dims
 import PyttbModel.Lemmas.Perm
 import PyttbModel.Lemmas.KhatriRao
 namespace Pyttb
+namespace V19
 
 /-! ### outcomes -/
 
@@ -49,7 +50,7 @@ theorem nodup_range_ofNat (n : Nat) : ((List.range n).map Int.ofNat).Nodup :=
   List.Pairwise.map Int.ofNat (fun _ _ h e => h (Int.ofNat.inj e)) List.nodup_range
 
 /-- a permutation of the modes is a rearrangement of `0 .. n-1` -/
-theorem IsPermI.perm {p : List Int} {n : Nat} (h : IsPermI p n) : ((List.range n).map Int.ofNat).Perm p := by
+theorem _root_.Pyttb.IsPermI.perm {p : List Int} {n : Nat} (h : IsPermI p n) : ((List.range n).map Int.ofNat).Perm p := by
   obtain ⟨hl, hm⟩ := h
   have hsub : ((List.range n).map Int.ofNat).Subperm p := by
     apply List.subperm_of_subset (nodup_range_ofNat n)
@@ -59,7 +60,7 @@ theorem IsPermI.perm {p : List Int} {n : Nat} (h : IsPermI p n) : ((List.range n
   exact hsub.perm_of_length_le (by simp [hl])
 
 /-- a permutation of the modes lists modes only, each once -/
-theorem IsPermI.modesOK {p : List Int} {n : Nat} (h : IsPermI p n) : ModesOK n p := by
+theorem _root_.Pyttb.IsPermI.modesOK {p : List Int} {n : Nat} (h : IsPermI p n) : ModesOK n p := by
   have hperm := h.perm
   refine ⟨fun m hmem => ?_, hperm.nodup_iff.1 (nodup_range_ofNat n)⟩
   obtain ⟨k, hk, rfl⟩ := List.mem_map.1 (hperm.mem_iff.2 hmem)
@@ -76,7 +77,7 @@ theorem any_ge_false_iff (N : Nat) (l : List Int) :
   simp [List.any_eq_false]
 
 /-- distinct modes of an order-`N` tensor are at most `N` -/
-theorem ModesOK.length_le {N : Nat} {l : List Int} (h : ModesOK N l) : l.length ≤ N := by
+theorem _root_.Pyttb.ModesOK.length_le {N : Nat} {l : List Int} (h : ModesOK N l) : l.length ≤ N := by
   have hsub : l.Subperm ((List.range N).map Int.ofNat) := by
     apply List.subperm_of_subset h.2
     intro x hx
@@ -391,7 +392,7 @@ theorem toNat_nodup {N : Nat} {sel : List Int} (h : ModesOK N sel) : (sel.map In
   have := (h.1 y hy).1
   omega
 
-theorem Pre_dimscheck.sel_modesOK {N : Nat} {M : Option Nat} {dims excl : Option (List Int)}
+theorem _root_.Pyttb.Pre_dimscheck.sel_modesOK {N : Nat} {M : Option Nat} {dims excl : Option (List Int)}
     (h : Pre_dimscheck N M dims excl) : ModesOK N (selModes N dims excl) := by
   obtain ⟨h0, h1, h2, _⟩ := h
   cases dims with
@@ -1606,15 +1607,17 @@ theorem validate_import_ok_iff (a : ImportArgs) : validate_import a = .ok () ↔
   | tensor h s n =>
     rw [validate_import, Pre_import]
     by_cases h1 : s.length = h
-    · rw [if_neg (by simp [h1]), rejectIf_ok]
-      simp [h1]
+    · subst h1
+      rw [if_neg (by simp), rejectIf_ok]
+      simp
     · rw [if_pos (by simp [h1])]
       simp only [error_ne_ok, false_iff]
       rintro ⟨h', _⟩; exact h1 h'.symm
   | sptensor h s nnz lines =>
     rw [validate_import, Pre_import]
     by_cases h1 : s.length = h
-    · rw [if_neg (by simp [h1])]
+    · subst h1
+      rw [if_neg (by simp)]
       by_cases h2 : lines.length < nnz
       · rw [if_pos (by simpa using h2)]
         simp only [error_ne_ok, false_iff]
@@ -1623,7 +1626,7 @@ theorem validate_import_ok_iff (a : ImportArgs) : validate_import a = .ok () ↔
         by_cases h3 : (lines.take nnz).all (fun ln => ln.length == s.length) = true
         · rw [if_neg (by rw [not_bnot_true]; exact h3), rejectIf_ok, Bool.not_eq_false', List.all_eq_true]
           rw [List.all_eq_true] at h3
-          simp only [h1, true_and, show nnz ≤ lines.length by omega]
+          simp only [true_and, show nnz ≤ lines.length by omega]
           constructor
           · intro h' ln hl; exact ⟨beq_iff_eq.1 (h3 ln hl), (rowInShape_iff _ _).1 (h' ln hl)⟩
           · intro h' ln hl; exact (rowInShape_iff _ _).2 (h' ln hl).2
@@ -1642,7 +1645,8 @@ theorem validate_import_ok_iff (a : ImportArgs) : validate_import a = .ok () ↔
     rw [validate_import, Pre_import]
     rw [eq_map_iff_getD]
     by_cases h1 : s.length = h
-    · rw [if_neg (by simp [h1])]
+    · subst h1
+      rw [if_neg (by simp)]
       by_cases h2 : fs.length < s.length
       · rw [if_pos (by simpa using h2)]
         simp only [error_ne_ok, false_iff]
@@ -1659,7 +1663,7 @@ theorem validate_import_ok_iff (a : ImportArgs) : validate_import a = .ok () ↔
               simp only [error_ne_ok, false_iff]
               rintro ⟨_, h', _⟩; omega
             · rw [if_neg (by simpa using h5), rejectIf_ok]
-              simp only [h1, h4, true_and, show R ≤ nw by omega, List.isEmpty_eq_false_iff, ne_eq]
+              simp only [h4, true_and, show R ≤ nw by omega, List.isEmpty_eq_false_iff, ne_eq]
               exact ⟨fun hs => ⟨h3', hs⟩, fun hs => hs.2⟩
           · rw [if_pos (by simp [h4])]
             simp only [error_ne_ok, false_iff]
@@ -1678,4 +1682,5 @@ theorem validate_import_ok_iff (a : ImportArgs) : validate_import a = .ok () ↔
   | unknown => simp [validate_import, Pre_import]
   | missing => simp [validate_import, Pre_import]
 
+end V19
 end Pyttb
